@@ -120,6 +120,11 @@ def signature(f, pshift=0, prog=None, subst=None, depth=0, forward=True):
             if c0 == 0 and len(items) == 1 and items[0][1] == 1:
                 return [k2 for k2, v in acc.items() if v][0]
             return ('lin', c0, tuple(items))
+        if k == 'cmp' and t[1] in ('eq', 'ne') and t[3] == ('const', 0) and isinstance(t[2], tuple) and \
+                (t[2][0] == 'cmp' or (t[2][0] == 'bin' and t[2][1] == 'xor' and isinstance(t[2][2], tuple) and t[2][2][0] == 'cmp')):
+            # a test kept in a bool local and tested later (`ok = a < b; if (!ok)`): polarity-free, it is the test itself
+            inner = t[2] if t[2][0] == 'cmp' else t[2][2]
+            return norm(inner, d)
         if k == 'cmp':
             a, b = norm(t[2], d), norm(t[3], d)
             p = t[1]
